@@ -105,22 +105,24 @@ def grid(seed):
         out.append(fam)
         # large magnitudes: parameters that only differ far up (close huge max_counts round to the same float;
         # widths/depths beyond 8 or 16 bits collide in packed or truncated comparisons)
-        big = r.choice([2**40, 2**48, 2**60, 2**63])
+        big = [2**40, 2**60, 2**63][rep]
         b16 = {"kind": "log16", "width": w, "depth": d, "max_count": big, "num_reserved": 1023}
         b8 = {"kind": "log8", "width": w, "depth": d, "max_count": max(big, 2**60), "num_reserved": 15}
         out.append([b16, dict(b16, max_count=big + 1), dict(b16, max_count=big + 1000), dict(b16, max_count=big - 1), b8, dict(b8, max_count=b8["max_count"] + 1),
                     dict(b8, max_count=b8["max_count"] - 1), dict(b8, max_count=b8["max_count"] + 2**20)])
-        lw = {"kind": "linear", "width": 3, "depth": 2}
-        out.append([lw, dict(lw, width=3 + 256), dict(lw, width=3 + 65536), dict(lw, depth=2 + 256), dict(lw, depth=2 + 65536), dict(lw, width=3 + 2**20)])
+        if rep == 0:
+            lw = {"kind": "linear", "width": 3, "depth": 2}
+            out.append([lw, dict(lw, width=3 + 256), dict(lw, width=3 + 65536), dict(lw, depth=2 + 256), dict(lw, depth=2 + 65536)])
         p, s = r.choice([7, 10, 16]), r.choice([0, 5, 2**32 - 1, r.getrandbits(64)])
         h = {"kind": "hll", "p": p, "seed": s}
         out.append([h, dict(h, p=p + 1 if p < 16 else p - 1), dict(h, seed=s ^ 1), dict(h, seed=s ^ (1 << 32)), dict(h, seed=s ^ (1 << 63)), dict(h, seed=s ^ (1 << 40))])
         hw, hd, hm = r.choice([1, 3, 16]), r.choice([1, 4]), r.choice([2, 8, 16])
         hh = {"kind": "hh", "width": hw, "depth": hd, "max_key_len": hm, "phi": None}
         out.append([hh, dict(hh, width=hw + 1), dict(hh, depth=hd + 1), dict(hh, max_key_len=hm + 1), dict(hh, max_key_len=hm - 1), dict(hh, phi=0.25)])
+        if rep:
+            continue
         hb = {"kind": "hh", "width": 3, "depth": 4, "max_key_len": 8, "phi": None}
-        out.append([hb, dict(hb, depth=4 + 256), dict(hb, depth=4 + 512), dict(hb, width=3 + 256), dict(hb, width=3 + 65536), dict(hb, width=2, depth=260), dict(hb, max_key_len=255),
-                    dict(hb, width=3 + 65536, depth=4 + 256)])
+        out.append([hb, dict(hb, depth=4 + 256), dict(hb, depth=4 + 512), dict(hb, width=3 + 256), dict(hb, width=3 + 65536), dict(hb, width=2, depth=260), dict(hb, max_key_len=255)])
     return out
 
 
